@@ -12,7 +12,7 @@ PYTHONPATH=$CLEAN timeout 1800 /venv/bin/python "$SRC/demo.py" > /tmp/val/$NAME.
 if ! git apply "$SRC/patch.diff"; then echo "{\"name\":\"$NAME\",\"applies\":false}"; git -C /repo worktree remove --force "$WT"; rm -rf "$CLEAN"; exit 1; fi
 PATCHED=$(VERIF_SCRATCH=/tmp/val /venv/bin/python /verif/harness/compat.py "$WT")
 PYTHONPATH=$PATCHED timeout 1800 /venv/bin/python "$SRC/demo.py" > /tmp/val/$NAME.patched.log 2>&1; RC_PATCHED=$?
-BASE=$(/tmp/tools/run_baseline.sh "$WT" | head -1)
+BASE=$(/verif/tools/run_baseline.sh "$WT" | head -1)
 echo "{\"name\":\"$NAME\",\"applies\":true,\"demo_clean_rc\":$RC_CLEAN,\"demo_patched_rc\":$RC_PATCHED,\"baseline\":\"$BASE\"}"
 rm -rf "$CLEAN" "$PATCHED"
 git -C /repo worktree remove --force "$WT"
